@@ -742,14 +742,45 @@ Definition geom_densify (seq : (list (geom_Coordinates F))) (maxDist : F) : part
       | LErr msg_3 => (Unknown msg_3)
       end.
 
-(* geom/type_polygon.go:ringWinding  NOT TRANSLATED: pivotIdx := untyped constant (the default type is not tracked) *)
-Definition geom_ringWinding := untranslatable "pivotIdx := untyped constant (the default type is not tracked)"%string.
+(* geom/type_polygon.go:Polygon.IsCW  (Unknown: the Go code panics at run time) *)
+Definition geom_Polygon_IsCW (p : (geom_Polygon F)) : partial bool :=
+  match range_loop (A:=(geom_LineString F)) (S:=unit) (R:=bool)
+      (fun i ring _ =>
+        match (geom_signedAreaOfLinearRing ring None) with
+        | Known r1 =>
+        let isCW := (f_ltb ops r1 (f_of_Z ops 0%Z)) in
+        if (negb (Bool.eqb (Z.eqb i 0%Z) isCW)) then
+          (SReturn false)
+        else
+          (SNext tt)
+        | Unknown msg => (SFail msg)
+        end)
+      (geom_Polygon_rings p) 0%Z tt with
+  | LDone _ =>
+    (Known true)
+  | LRet ret => (Known ret)
+  | LErr msg_1 => (Unknown msg_1)
+  end.
 
-(* geom/type_polygon.go:Polygon.IsCW  NOT TRANSLATED: calls geom.ringWinding, which is not translated: pivotIdx := untyped constant (the default type is not tracked) *)
-Definition geom_Polygon_IsCW := untranslatable "calls geom.ringWinding, which is not translated: pivotIdx := untyped constant (the default type is not tracked)"%string.
-
-(* geom/type_polygon.go:Polygon.IsCCW  NOT TRANSLATED: calls geom.ringWinding, which is not translated: pivotIdx := untyped constant (the default type is not tracked) *)
-Definition geom_Polygon_IsCCW := untranslatable "calls geom.ringWinding, which is not translated: pivotIdx := untyped constant (the default type is not tracked)"%string.
+(* geom/type_polygon.go:Polygon.IsCCW  (Unknown: the Go code panics at run time) *)
+Definition geom_Polygon_IsCCW (p : (geom_Polygon F)) : partial bool :=
+  match range_loop (A:=(geom_LineString F)) (S:=unit) (R:=bool)
+      (fun i ring _ =>
+        match (geom_signedAreaOfLinearRing ring None) with
+        | Known r1 =>
+        let isCCW := (f_gtb ops r1 (f_of_Z ops 0%Z)) in
+        if (negb (Bool.eqb (Z.eqb i 0%Z) isCCW)) then
+          (SReturn false)
+        else
+          (SNext tt)
+        | Unknown msg => (SFail msg)
+        end)
+      (geom_Polygon_rings p) 0%Z tt with
+  | LDone _ =>
+    (Known true)
+  | LRet ret => (Known ret)
+  | LErr msg_1 => (Unknown msg_1)
+  end.
 
 (* geom/type_multi_line_string.go:MultiLineString.Length  (Unknown: the Go code panics at run time) *)
 Definition geom_MultiLineString_Length (m : (geom_MultiLineString F)) : partial F :=
@@ -899,10 +930,4 @@ Definition geom_perpendicularDistance (p : (geom_XY F)) (a : (geom_XY F)) (b : (
 
 End Funcs.
 
-(* translated: 57 functions; not translated: 3 *)
-
-(* generator warnings:
-   - geom/type_polygon.go:ringWinding not translated: pivotIdx := untyped constant (the default type is not tracked)
-   - geom/type_polygon.go:Polygon.IsCW not translated: calls geom.ringWinding, which is not translated: pivotIdx := untyped constant (the default type is not tracked)
-   - geom/type_polygon.go:Polygon.IsCCW not translated: calls geom.ringWinding, which is not translated: pivotIdx := untyped constant (the default type is not tracked)
-*)
+(* translated: 59 functions; not translated: 0 *)
